@@ -117,17 +117,30 @@ class Session:
         return sigs
 
     def _bind_inputs(self):
-        self.input_ents = {}  # ent num -> input name
+        """inputs are identified by their sentinel default value (and declared signal); the label
+        `<name> (value=V (input))` is checked separately (C20) so that a labelling defect does not blind
+        the value checks"""
+        self.input_ents = {}  # ent num -> [input names]
         self.input_info = {}
+        self.label_mismatch = []
         for (_k, name, T, default) in self._toplevel_inputs():
             rx = _desc_re(name, r" \(value=")
-            ents = [e for e in self.circ.ents.values() if e.kind == "const" and rx.match(e.desc)]
-            ents = [e for e in ents if any(c == default for (_a, _b, _n, c) in self.circ.const_filters(e))]
-            if not ents:
+            cands = []
+            for e in self.circ.ents.values():
+                if e.kind != "const":
+                    continue
+                for (_a, _b, n, c) in self.circ.const_filters(e):
+                    if c == default and (T is None or n == T):
+                        cands.append(e)
+                        break
+            labelled = [e for e in cands if rx.match(e.desc)]
+            if not cands:
                 self.problems.append(("input-missing", name))
-            for e in ents:
-                self.input_ents[e.num] = name
-            self.input_info[name] = {"type": T, "default": default, "ents": [e.num for e in ents]}
+            elif not labelled:
+                self.label_mismatch.append((name, [e.desc for e in cands]))
+            for e in cands:
+                self.input_ents.setdefault(e.num, []).append(name)
+            self.input_info[name] = {"type": T, "default": default, "ents": [e.num for e in cands]}
 
     def _bind_entities(self):
         self.tile_ents = {}
@@ -159,14 +172,12 @@ class Session:
         circ = self.circ
 
         def const_override(e, sig, count, t):
-            name = self.input_ents.get(e)
-            if name is None:
-                return None
-            info = self.input_info[name]
-            if count != info["default"]:
-                return None
-            step = None if (t is None or step_of is None) else step_of(t)
-            return inp(name, step)
+            for name in self.input_ents.get(e, ()):
+                info = self.input_info[name]
+                if count == info["default"] and (info["type"] is None or info["type"] == sig):
+                    step = None if (t is None or step_of is None) else step_of(t)
+                    return inp(name, step)
+            return None
 
         ev = Evaluator(circ, dom, const_override=const_override, contents=lambda e, s, t: cont(e, s), universe=self.U)
         if init is not None:
@@ -455,4 +466,309 @@ def check_entity_conditions(sess, run, key_prefix, zev, ref):
         exp, got = bad["enable"]
         inputs = sess.inputs_from_model(model)
         findings.append({"key": key, "what": f"entity {ekey}: for inputs {inputs} the circuit condition is {bool(got)} but the assigned expression is {'positive' if exp else 'not positive'}", "kind": "enable", "inputs": inputs})
+    return findings
+
+
+# ======================================================================================
+#  Histories: gated memory cells (C03) and set/reset latches (C05) - bounded model checking
+# ======================================================================================
+
+
+def _truthy_pos(d, v):
+    return d.cmp(">", v, d.const(0))
+
+
+def history_reference(sess, dom, ref_factory, K):
+    """step-level reference.  Returns per step k: (Interp run with reads of step k)"""
+    prev = {}
+    runs = []
+    domain_constraints = []  # the statement defines behaviour for c > 0 and c == 0 only
+    for k in range(K):
+        # pass 1: evaluate writes with the previous reads (data/enable are stateless in the families)
+        reads0 = {kk: vv for kk, vv in prev.items() if not isinstance(kk, tuple)}
+        reads0["__default0__"] = True
+        probe = ref_factory(k, reads0)
+        cur = dict(prev)
+        mems = probe.mems
+        for key in mems:
+            cur.setdefault(key, dom.const(0))
+            prev.setdefault(key, dom.const(0))
+        for (key, v, w) in probe.writes:
+            vv = probe.as_val(v)
+            if mems.get(key) is None and isinstance(v, Sig):
+                mems[key] = v.type
+            if w is None:
+                cur[key] = vv
+            else:
+                domain_constraints.append(dom.cmp(">=", probe.as_val(w), dom.const(0)))
+                cur[key] = dom.ite(_truthy_pos(dom, probe.as_val(w)), vv, prev[key])
+        for (key, v, st, rs, order) in probe.latches:
+            s_on = dom.cmp("!=", probe.as_val(st), dom.const(0))
+            r_on = dom.cmp("!=", probe.as_val(rs), dom.const(0))
+            was_on = dom.cmp("!=", prev.get(("on", key), dom.const(0)), dom.const(0))
+            if order == "sr":
+                on = dom.or_(s_on, dom.and_(was_on, dom.not_(r_on)))
+            else:
+                on = dom.and_(dom.not_(r_on), dom.or_(s_on, was_on))
+            cur[("on", key)] = dom.b2i(on)
+            cur[key] = dom.ite(on, probe.as_val(v), dom.const(0))
+            if mems.get(key) is None and isinstance(v, Sig):
+                mems[key] = v.type
+        final = ref_factory(k, {kk: vv for kk, vv in cur.items() if not isinstance(kk, tuple)})
+        final.on_state = {kk[1]: vv for kk, vv in cur.items() if isinstance(kk, tuple)}
+        for key, T in mems.items():
+            if final.mems.get(key) is None:
+                final.mems[key] = T
+        runs.append(final)
+        prev = cur
+    if runs:
+        runs[0].domain_constraints = domain_constraints
+    return runs
+
+
+def check_history(sess: Session, run, key_prefix, K, bool_inputs=(), outputs=None, extra_hold=0):
+    """exists history of K steps (one input changed per step, each held S ticks):
+         some named output differs from the step-level reference at the end of a step."""
+    findings = []
+    zd = sess.zd
+    probe_ev, _ = sess.z3_pair()
+    S = probe_ev.depth_bound() + 4 + extra_hold
+
+    def step_of(t):
+        return min(max(0, t - 1) // S, K - 1)
+
+    zev, zref = sess.z3_pair(step_of=step_of)
+    try:
+        refs = history_reference(sess, zd, lambda k, reads: zref(k, reads), K)
+    except RefError as exc:
+        run.inconc(key_prefix, f"reference undefined: {exc}")
+        return findings, S
+    names = outputs if outputs is not None else refs[-1].output_names()
+    hist_constraints = list(refs[0].domain_constraints)
+    in_names = list(sess.input_info)
+    for k in range(1, K):
+        changed = [sess.z3_input(n, k) != sess.z3_input(n, k - 1) for n in in_names]
+        if len(changed) > 1:
+            hist_constraints.append(z3.AtMost(*changed, 1))
+    for n in bool_inputs:
+        for k in range(K):
+            v = sess.z3_input(n, k)
+            hist_constraints.append(z3.Or(v == 0, v == 1))
+    for prob in sess.problems:
+        findings.append({"key": f"{key_prefix}:{prob[1]}", "what": f"{prob[0]} {prob[1]}: declared input has no constant combinator", "kind": prob[0], "closed": True})
+    vac = False
+    for name in names:
+        key = f"{key_prefix}:{name}"
+        rv_last = None
+        try:
+            rv_last = refs[-1].lookup(name)
+        except RefError:
+            continue
+        if isinstance(rv_last, tuple) and rv_last[0] == "mem":
+            continue
+        if not isinstance(rv_last, (Sig, Bun)):
+            continue
+        diffs = []  # (step, tick, signal, observed, expected)
+        how = None
+        try:
+            for k in range(K):
+                rv = refs[k].lookup(name)
+                for t in ((k + 1) * S - 1, (k + 1) * S):
+                    obs, how = sess.observe(zev, name, t)
+                    if obs is None:
+                        break
+                    if isinstance(rv, Sig):
+                        carrier = rv.type or sess.carrier_hint(how[1])
+                        if carrier is None:
+                            obs = None
+                            how = ("carrier", None)
+                            break
+                        diffs.append((k, t, carrier, obs[carrier], rv.val))
+                    else:
+                        for s in sess.U:
+                            diffs.append((k, t, s, obs[s], rv.m.get(s, zd.const(0))))
+                if obs is None:
+                    break
+        except Unsupported as exc:
+            run.inconc(key, f"unsupported: {exc}")
+            continue
+        if obs is None:
+            findings.append({"key": key, "what": f"output {name}: {how[0]} (no unique observation point)", "kind": how[0], "closed": True})
+            continue
+        neq = z3.Or(*[o != r for (_k, _t, _s, o, r) in diffs])
+
+        def replay(model, name=name):
+            idom, iev, iref = sess.int_pair(model, step_of=step_of)
+            irefs = history_reference(sess, idom, lambda k, reads: iref(k, reads), K)
+            bad = {}
+            for k in range(K):
+                irv = irefs[k].lookup(name)
+                for t in ((k + 1) * S - 1, (k + 1) * S):
+                    iobs, ihow = sess.observe(iev, name, t)
+                    if isinstance(irv, Sig):
+                        carrier = irv.type or sess.carrier_hint(ihow[1])
+                        exp = {carrier: irv.val}
+                    else:
+                        exp = {s: irv.m.get(s, 0) for s in sess.U}
+                    for s in exp:
+                        if exp[s] != iobs[s]:
+                            bad[(k, t, s)] = (exp[s], iobs[s])
+                if bad:
+                    break
+            return bad, bool(idom.corner_hits)
+
+        verdict, model, bad = decide(sess, run, key, neq, replay, extra=hist_constraints)
+        if verdict == "unsat" and not vac:
+            tw = Solve([z3.Or(*[o != r + 1 for (_k, _t, _s, o, r) in diffs])] + hist_constraints, 20_000)
+            if tw.verdict == "unsat":
+                run.harness_error(key, "vacuity twin UNSAT")
+            vac = True
+        if verdict != "violation":
+            continue
+        hist = sess.inputs_from_model(model, steps=K)
+        (k0, t0, s0) = sorted(bad)[0]
+        findings.append(
+            {
+                "key": key,
+                "what": f"output {name}: input history {hist} (each step held {S} ticks): at step {k0} (tick {t0}) signal {s0} reads {bad[(k0, t0, s0)][1]} but the source denotes {bad[(k0, t0, s0)][0]}",
+                "kind": "history",
+                "history": hist,
+                "hold_ticks": S,
+                "steps": K,
+            }
+        )
+    return findings, S
+
+
+# ======================================================================================
+#  C04: unconditional self-referential writes  m.write(f(m.read()))
+# ======================================================================================
+
+
+def check_loop(sess: Session, run, key_prefix, cell="m", alias="r0", readers=(), Lmax=None, rounds=3):
+    """exists L in 1..Lmax: for all held inputs and all ticks t <= T-L from the all-zero state:
+         x(t+L) = f(x(t))        x = the cell's signal at the anchor of `Signal r0 = m.read()`
+       and for every depth-1 reader r = g(m.read()):  r(t+1) = g(x(t))."""
+    findings = []
+    zd = sess.zd
+    zev, zref = sess.z3_pair()
+    ncomb = sum(1 for e in sess.circ.ents.values() if e.is_comb)
+    Lmax = Lmax or min(ncomb + 1, 8)
+    xsym = z3.BitVec("cell_value", 32)
+    try:
+        r0 = zref(None, {cell: xsym})
+    except RefError as exc:
+        run.inconc(key_prefix, f"reference undefined: {exc}")
+        return findings
+    wr = [w for w in r0.writes if w[0] == cell]
+    if len(wr) != 1 or wr[0][2] is not None:
+        run.inconc(key_prefix, "not a single unconditional write")
+        return findings
+    fterm = r0.as_val(wr[0][1])
+    ctype = r0.mems.get(cell) or (wr[0][1].type if isinstance(wr[0][1], Sig) else None)
+    key = f"{key_prefix}:{alias}"
+    obs0, how = sess.observe(zev, alias, 1)
+    if obs0 is None:
+        findings.append({"key": key, "what": f"cell alias {alias}: {how[0]} (no unique observation point)", "kind": how[0], "closed": True})
+        return findings
+    carrier = ctype or sess.carrier_hint(how[1])
+
+    def x_at(ev, t):
+        return sess.observe(ev, alias, t)[0][carrier]
+
+    def f_of(val, dom, ref_factory):
+        r = ref_factory(None, {cell: val})
+        w = [w for w in r.writes if w[0] == cell][0]
+        return r.as_val(w[1]), r
+
+    cexs = {}
+    proved_L = None
+    for L in range(1, Lmax + 1):
+        T = rounds * L + 4
+        diffs = []
+        for t in range(0, T - L + 1):
+            xt = x_at(zev, t)
+            diffs.append(x_at(zev, t + L) != z3.substitute(fterm, (xsym, xt)))
+        neq = z3.Or(*diffs)
+
+        def replay(model, L=L, T=T):
+            idom, iev, iref = sess.int_pair(model)
+            bad = {}
+            for t in range(0, T - L + 1):
+                xt = x_at(iev, t)
+                exp, _r = f_of(xt, idom, iref)
+                got = x_at(iev, t + L)
+                if exp != got:
+                    bad[t] = (exp, got)
+                    break
+            return bad, bool(idom.corner_hits)
+
+        verdict, model, bad = decide(sess, run, f"{key}@L={L}", neq, replay)
+        if verdict == "unsat":
+            proved_L = L
+            break
+        if verdict == "violation":
+            t0 = sorted(bad)[0]
+            cexs[L] = {"inputs": sess.inputs_from_model(model), "tick": t0, "expected": bad[t0][0], "observed": bad[t0][1]}
+        else:
+            cexs[L] = {"inconclusive": True}
+    if proved_L is None:
+        if any(c.get("inconclusive") for c in cexs.values()):
+            run.inconc(key, "no latency L proved and some L undecided")
+        else:
+            findings.append(
+                {
+                    "key": key,
+                    "what": f"cell {cell}: no round-trip latency L in 1..{Lmax} satisfies value(t+L)=f(value(t)); e.g. L=1: {cexs.get(1)}",
+                    "kind": "loop",
+                    "counterexample_per_L": cexs,
+                }
+            )
+        return findings
+    # readers of depth 1
+    for rname in readers:
+        rkey = f"{key_prefix}:{rname}"
+        try:
+            rv = r0.lookup(rname)
+        except RefError:
+            continue
+        if not isinstance(rv, Sig):
+            continue
+        T = rounds * proved_L + 4
+        obs_r, rhow = sess.observe(zev, rname, 1)
+        if obs_r is None:
+            findings.append({"key": rkey, "what": f"reader {rname}: {rhow[0]}", "kind": rhow[0], "closed": True})
+            continue
+        rc = rv.type or sess.carrier_hint(rhow[1])
+        ok = False
+        for dly in (1, 2, 0):
+            diffs = []
+            for t in range(0, T):
+                xt = x_at(zev, t)
+                diffs.append(sess.observe(zev, rname, t + dly)[0][rc] != z3.substitute(rv.val, (xsym, xt)))
+
+            def replay(model, dly=dly, rname=rname, rc=rc):
+                idom, iev, iref = sess.int_pair(model)
+                bad = {}
+                for t in range(0, T):
+                    xt = x_at(iev, t)
+                    exp = iref(None, {cell: xt}).lookup(rname).val
+                    got = sess.observe(iev, rname, t + dly)[0][rc]
+                    if exp != got:
+                        bad[t] = (exp, got)
+                        break
+                return bad, bool(idom.corner_hits)
+
+            verdict, model, bad = decide(sess, run, f"{rkey}@d={dly}", z3.Or(*diffs), replay)
+            if verdict == "unsat":
+                ok = True
+                break
+            if verdict != "violation":
+                ok = None
+                break
+            last = (model, bad)
+        if ok is False:
+            model, bad = last
+            t0 = sorted(bad)[0]
+            findings.append({"key": rkey, "what": f"reader {rname} of cell {cell} does not follow the cell's value with a fixed delay (inputs {sess.inputs_from_model(model)}, tick {t0}: {bad[t0][1]} instead of {bad[t0][0]})", "kind": "loop-reader", "inputs": sess.inputs_from_model(model)})
     return findings
